@@ -78,7 +78,10 @@ func analyzers(r *schemahcl.Resource) ([]sqlcheck.Analyzer, error) {
 			// Detect sequence of changes using temporary table and transform them to one ModifyTable change.
 			// See: https://www.sqlite.org/lang_altertable.html#making_other_kinds_of_table_schema_changes.
 			for i := 0; i < len(p.File.Changes); i++ {
-				if i+3 >= len(p.File.Changes) {
+				// The statement between "CREATE" and "DROP" is expected to be the "INSERT" that copies
+				// the rows, which does not change the schema. Any other statement there (e.g. "DROP TABLE")
+				// must be analyzed by itself and not be swallowed by the combined change.
+				if i+3 >= len(p.File.Changes) || len(p.File.Changes[i+1].Changes) != 0 {
 					changes = append(changes, p.File.Changes[i])
 					continue
 				}
